@@ -43,11 +43,12 @@ def job(args):
             for pat in patterns(nbmap):
                 k += 1
                 vcls = "SymFalsyVert" if k % 2 else "Vertex"
-                attrs = {v: ({ATTR: Tok(1, "stored-equal")} if p == "M" else ({ATTR: Tok(2, "stored-other")} if p == "N" else {})) for v, p in pat.items()}
-                sought = Tok(1, "sought")
+                none_mode = k % 5 == 0   # the sought value is None: a vertex lacking the attribute is still no match
+                attrs = {v: ({ATTR: (None if none_mode else Tok(1, "stored-equal"))} if p == "M" else ({ATTR: Tok(2, "stored-other")} if p == "N" else {})) for v, p in pat.items()}
+                sought = None if none_mode else Tok(1, "sought")
                 for tname, (mod, lst, gen, srch) in trav.TRAVS.items():
                     n += 1
-                    rec = dict(map={v: list(l) for v, l in nbmap.items()}, universe=members, trav=tname, search=srch, pattern=pat, vcls=vcls)
+                    rec = dict(map={v: list(l) for v, l in nbmap.items()}, universe=members, trav=tname, search=srch, pattern=pat, vcls=vcls, sought_none=none_mode)
                     try:
                         if tname not in listings:
                             V = th.setup(nbmap, members, "Vertex", None)
@@ -115,7 +116,7 @@ def run(ctx):
         what = {"first-match": f"returns {r['got']} but the first match of {r['trav']}'s listing {r.get('listing')} is {r.get('want')}",
                 "settings": f"calls {r['got']} instead of the traversal's default settings", "nonterm": "does not terminate"}[r["kind"]]
         res.violation("FIRST-MATCH" if r["kind"] != "settings" else "SEARCH-SETTINGS", f"{mod}.{r['search']}",
-                      f"vertex-class={r['vcls']},universe={'given' if r['universe'] else 'None'},match-at-start={r['pattern'].get('a') == 'M'}",
+                      f"vertex-class={r['vcls']},universe={'given' if r['universe'] else 'None'},match-at-start={r['pattern'].get('a') == 'M'},sought-None={r.get('sought_none', False)}",
                       f"{r['search']} on neighbour map {r['map']} universe {r['universe']} attribute pattern {r['pattern']} ({r['vcls']}): {what}", replay=replay(r))
     res.rule("FIRST-MATCH", n)
     opt_rule(ctx, res)
